@@ -59,7 +59,7 @@ CHECKS["C17"] = dict(engine="validate", level=("exploration", "Validate.tla defi
     technique="TLA+ request-universe spec (Validate.tla) enumerated by TLC and replayed into the real request pipeline + trace validation (TraceValidate.tla)")
 HOOK_COMMITS.append("41c409bf")
 
-SYS_NOTE = "trusted: the ~300-line Go interpreter of the module DSL (harness/verifvm.go) against its TLA+ semantics (Exec.tla); chain = the harness's final chain; small-integer values; open known finding D15 (production range entirely below every store; see known_findings.json); D7 / D9 / D14 / D16-D19 were found by these checks and repaired"
+SYS_NOTE = "trusted: the ~300-line Go interpreter of the module DSL (harness/verifvm.go) against its TLA+ semantics (Exec.tla); chain = the harness's final chain; small-integer values; D7 / D9 / D14 - D19 / D21 were found by these checks and repaired (see known_findings.json)"
 SYS_TECH = "TLA+ reference execution (Exec.tla SeqExec + Plan.tla) + trace validation (TraceSystem.tla) of real tier1/tier2 end-to-end runs"
 CHECKS["C01"] = dict(engine="system", level=("model_checking", "End-to-end: generated module programs run through the REAL tier1 service (resolution, plan, scheduler, in-process tier2 jobs in a harness-controlled completion order, squasher, walker, linear pipeline, real files) and every observed response stream / final store map is judged by TraceSystem.tla against SeqExec of Exec.tla - one sequential execution of the whole module graph, with the hand-off taken from Plan.tla. Design level: the compositional lemmas are TLC-checked models (MCStore: merge = sequential; MCPlan: coverage of the range; Sched/C05: jobs start with complete inputs). Scenarios: sequences of production / development requests with random ranges, final block, segment size, workers and job completion order over one cache directory.", "6/C01"), note=SYS_NOTE, technique=SYS_TECH)
 CHECKS["C04"] = dict(engine="system", level=("model_checking", "End-to-end: generated module programs run through the REAL tier1 service (resolution, plan, scheduler, in-process tier2 jobs in a harness-controlled completion order, squasher, walker, linear pipeline, real files) and every observed response stream / final store map is judged by TraceSystem.tla against SeqExec of Exec.tla - one sequential execution of the whole module graph, with the hand-off taken from Plan.tla. Design level: the compositional lemmas are TLC-checked models (MCStore: merge = sequential; MCPlan: coverage of the range; Sched/C05: jobs start with complete inputs). Stream-shape predicates (range, order, no duplicate, no gap from the hand-off on, cursor = block) on every run; for resumption the request is re-issued from the cursor of delivered blocks and the resumed stream must be the suffix of the original.", "6/C04"), note=SYS_NOTE + "; resumption is checked from cursors of delivered (final) blocks", technique=SYS_TECH)
@@ -75,7 +75,7 @@ CHECKS["C16"] = dict(engine="system", level=("fault_enumeration", "Transient fau
     technique="TLA+ retry/idempotence model (MCWorker.tla) checked by TLC + trace validation (TraceSystem.tla) of real RemoteWorker/tier2 runs under injected faults")
 
 CHECKS["C05"] = dict(engine="system", level=("model_checking", "Sched.tla is a transcription of orchestrator/stage (unit matrix, shadowing, dependenciesCompleted, NextJob, TryMerge, MoveSegmentCompletedForward, FetchStoresState) and of Scheduler.Update; MCSched.tla closes it with an environment (workers finishing in any order, merges, cache contents) and TLC checks, for every interleaving of small configurations (2-4 stages x 3-4 segments, 1-2 workers; caches: empty, prefix, every subset of the partial files, every subset of all files of the 2x3 grid): no invalid transition, every started job has its lower stores complete, every store segment merged once and in order, worker count within bounds, and termination under weak fairness. Conformance: the scheduler hook records every real Scheduler.Update of real tier1 runs (matrix, counters, walker, flags); TraceSched.tla replays the transcription step by step (difference = drift) and evaluates the property predicates on the OBSERVED matrices; TraceSystem.tla checks each request terminates with the right outcome. Cache shapes of former TLC counterexamples are rebuilt on the real code (schedcex); merges and walker attempts are delayed by harness-owned gates (hooks) so that the scheduler's races are reproducible. The repairs of the scheduler (eb31da19, ae4826d2, 1cdc7a28) were designed and model-checked in this specification before they were applied to the code.", "6/C05"),
-    note="the design model is exhaustive only for the small configurations listed; real runs are sampled; the three ways a job used to be started before a lower store was complete (snapshot gap, first segment of a later-starting stage, indirect lower stage) and the shadow-marking defects were found by this check and repaired; open: D15",
+    note="the design model is exhaustive only for the small configurations listed; real runs are sampled; the three ways a job used to be started before a lower store was complete (snapshot gap, first segment of a later-starting stage, indirect lower stage) and the shadow-marking defects were found by this check and repaired",
     technique="TLA+ transcription of the scheduler (Sched.tla) model-checked by TLC in a closed environment (MCSched.tla) + trace validation of every real Scheduler.Update (TraceSched.tla)")
 HOOK_COMMITS.append("d1d8afab")
 HOOK_COMMITS.append("d2fc1936")
